@@ -24,8 +24,8 @@ class C17 : public Check
 public:
     const char *id() { return "C17"; }
     const char *opName(int) { return "advance"; }
-    int quickRuns() { return 4000; }
-    int quickSeconds() { return 70; }
+    int quickRuns() { return 40000; }
+    int quickSeconds() { return 90; }
     int thoroughSeconds() { return 900; }
     const char *rule()
     {
